@@ -9,8 +9,8 @@ import traceback
 
 from dsim import refmodel as R
 from dsim.world import (Actor, HarnessError, SimCrash, SimEventCap, SimHang,
-                        SimRawIO, SimReadHandle, SimWriteHandle,
-                        apply_faults, jsonable)
+                        FollowHandle, SimRawIO, SimReadHandle,
+                        SimWriteHandle, apply_faults, jsonable)
 
 
 def pyval(v):
@@ -724,6 +724,25 @@ def open_stream(world, kind, data, actor, buf=None, cap=None,
     is handed over positioned at the start of the DiffX data (an envelope, a
     response header): the reader reads from the current position."""
     pre = PREFIXES[prefix % len(PREFIXES)] if isinstance(prefix, int) else b''
+    short_hdr = []
+
+    if isinstance((extras or {}).get('short_hdr'), int) and \
+       kind in ('sim', 'minimal'):
+        # a raw / packet-like stream: one read() inside every header line
+        # comes up short (never inside content: the content read is outside
+        # what the checks claim)
+        from dsim.world import _spans
+        seed = extras['short_hdr']
+
+        for hs, he, ce in _spans(data):
+            if he - hs > 2:
+                short_hdr.append(hs + 1 + (seed * 7919 + hs) % (he - hs - 2))
+
+            if he - hs > 100:
+                # a header longer than one read-ahead block: also inside
+                # its first block
+                short_hdr.append(hs + 1 + (seed * 31 + hs) % 90)
+
     data = pre + data
 
     if kind == 'gzip' and len(data) <= 30000:
@@ -770,7 +789,7 @@ def open_stream(world, kind, data, actor, buf=None, cap=None,
                           read_error_at=read_error_at,
                           seek_none=bool(x.get('seek_none')),
                           short_at=[len(pre) + int(b) for b in
-                                    x.get('short_at') or ()
+                                    list(x.get('short_at') or ()) + short_hdr
                                     if isinstance(b, int)])
         h.pos = len(pre)
 
@@ -875,12 +894,40 @@ class ReaderActor(Actor):
         self.stream = None
         self.shadow = None
 
+    def _sections_available(self, world):
+        n = 0
+
+        for a in world.actors.values():
+            if a.kind == 'writer' and a.spec.get('file') == self.spec['file']:
+                n += sum(1 for c in a.calls
+                         if c['outcome'] == 'ok' and c['wrote'] > 0)
+
+        return n
+
     def step(self, world):
         L = world.L
         fname = self.spec['file']
 
         if self.it is None:
             f = world.files.get(fname)
+
+            if self.spec.get('follow'):
+                # a consumer that follows the file while it is written: it
+                # asks for the next record only when the producer has
+                # completed a further section (so it never meets the end
+                # of the data inside a section)
+                if f is None or self._sections_available(world) < 1:
+                    self.waiting = True
+                    return
+
+                self.waiting = False
+                self.data = None
+                self.handle = self.stream = FollowHandle(world, fname,
+                                                         self.id)
+                cls = sized_reader_cls(L, self.spec.get('block_size'))
+                self.it = iter(make_reader(cls, self.stream, False, world))
+                world.faults['reader_follows_growing_file'] += 1
+                return
 
             if self.spec.get('wait', True) and \
                (f is None or not f.producer_done):
@@ -909,6 +956,19 @@ class ReaderActor(Actor):
                                        world,
                                        bool(self.spec.get('own_ctor'))))
             return
+
+        if self.spec.get('follow'):
+            f = world.files.get(fname)
+
+            if not f.producer_done and \
+               len(self.records) >= self._sections_available(world):
+                self.waiting = True
+                return
+
+            self.waiting = False
+
+            if not f.producer_done:
+                self.followed_live = getattr(self, 'followed_live', 0) + 1
 
         if self.shadow is not None:
             self.shadow.step()
@@ -1019,16 +1079,17 @@ def header_short_reads(data, seed):
 
 
 def read_twice(world, data, block_size=None, actor='aux', abandon=None,
-               extras=None):
+               extras=None, stream='sim', buf=None):
     """The same reader object iterated twice over the same stream: a
     first pass that runs to its end, fails, or is abandoned after `abandon`
     records; the caller then rewinds the stream and iterates again.  Returns
     the (records, end, exc) of the second pass."""
     L = world.L
-    st, h = open_stream(world, 'sim', data, actor, extras=extras)
+    st, h = open_stream(world, stream if stream in STREAM_KINDS else 'sim',
+                        data, actor, extras=extras, buf=buf)
     cls = sized_reader_cls(L, block_size)
     rd = make_reader(cls, st, False, world)
-    start = st.tell()
+    start = st.tell() if hasattr(st, 'tell') else h.pos
 
     try:
         it = iter(rd)
